@@ -70,7 +70,7 @@ static void on_signal(int sig) {
 
 int main(int argc, char** argv) {
   if (argc < 2 || strcmp(argv[1], "run")) { fprintf(stderr, "usage: vtool run ...\n"); return 2; }
-  const char *id = "", *variant = "", *depfile = NULL, *rsp = NULL;
+  const char *id = "", *variant = "", *depfile = NULL, *rsp = NULL; char* dftargets = NULL;
   const char *outs[MAXN], *reads[MAXN], *hidden[MAXN], *lit_out[MAXN], *lit_hex[MAXN];
   int nout = 0, nread = 0, nhid = 0, nlit = 0, restat = 0, msvc = 0, layout = 0;
   for (int i = 2; i < argc; i++) {
@@ -79,6 +79,7 @@ int main(int argc, char** argv) {
     else if (!strcmp(argv[i], "--restat")) restat = 1;
     else if (!strcmp(argv[i], "--msvc")) msvc = 1;
     else if (!strcmp(argv[i], "--depfile")) depfile = argv[++i];
+    else if (!strcmp(argv[i], "--depfile-targets")) { dftargets = strdup(argv[++i]); for (char* c = dftargets; *c; c++) if (*c == ',') *c = ' '; }
     else if (!strcmp(argv[i], "--layout")) layout = atoi(argv[++i]);
     else if (!strcmp(argv[i], "--rsp")) rsp = argv[++i];
     else if (!strcmp(argv[i], "--literal")) { lit_out[nlit] = argv[++i]; lit_hex[nlit++] = argv[++i]; }
@@ -145,7 +146,7 @@ int main(int argc, char** argv) {
     }
     if (depfile && !msvc) {
       char d[16384]; int dl = 0;
-      const char* t = outs[0];
+      const char* t = dftargets ? dftargets : outs[0];
       if (layout == 1) { dl += snprintf(d + dl, sizeof d - dl, "%s: \\\n", t); for (int i = 0; i < nhid; i++) dl += snprintf(d + dl, sizeof d - dl, "  %s \\\n", hidden[i]); dl += snprintf(d + dl, sizeof d - dl, "\n"); }
       else if (layout == 2) { dl += snprintf(d + dl, sizeof d - dl, "%s:", t); for (int i = 0; i < nhid; i++) dl += snprintf(d + dl, sizeof d - dl, " %s", hidden[i]); dl += snprintf(d + dl, sizeof d - dl, "\r\n"); for (int i = 0; i < nhid; i++) dl += snprintf(d + dl, sizeof d - dl, "%s:\r\n", hidden[i]); }
       else if (layout == 3) { for (int i = 0; i < nhid; i++) dl += snprintf(d + dl, sizeof d - dl, "%s: %s\n", t, hidden[i]); if (!nhid) dl += snprintf(d + dl, sizeof d - dl, "%s:\n", t); }
